@@ -411,6 +411,12 @@ theorem kind_of_shape (st : Tag) (r : List Tag) :
 theorem getLast_shape (st : Tag) (mid : List Tag) (c : Tag) : (st :: (mid ++ [c])).getLast? = some c := by
   rw [show st :: (mid ++ [c]) = (st :: mid) ++ [c] from rfl, List.getLast?_append]; simp
 
+theorem reactorVals_valid (vs : List V) (h : ∀ v ∈ vs, (hexKeyV v).isSome = true) : reactorVals vs = vs := by
+  unfold reactorVals
+  split
+  · rw [List.filter_eq_self]; exact h
+  · rfl
+
 theorem setupApp_spec (alive : V → Bool) (hc : Nat) (items : List Item) (ad : AD)
     (hs : ∀ i ∈ items, ItemShape hc i) (hw : items.all (itemWF alive) = true)
     (hk : (ad.appdata.map (·.1) ++ (othersOf items).map (·.1)).Nodup)
@@ -464,9 +470,16 @@ theorem setupApp_spec (alive : V → Bool) (hc : Nat) (items : List Item) (ad : 
           rw [nodupN_iff] at hnd
           rw [List.map_map]
           exact hnd
+        have hvalid : reactorVals (mid.map (·.val)) = mid.map (·.val) := by
+          apply reactorVals_valid
+          intro v hv
+          obtain ⟨t, ht, rfl⟩ := List.mem_map.mp hv
+          have := List.all_eq_true.mp hall t ht
+          simp only [Bool.and_eq_true] at this
+          exact this.2
         have hstep : setupAppStep ad (st :: (mid ++ [c]))
             = .ok { ad with reactors := some (mid.map (·.val)) } := by
-          simp only [setupAppStep, hre, beq_self_eq_true, if_true, List.dropLast_concat, hdd]
+          simp only [setupAppStep, hre, beq_self_eq_true, if_true, List.dropLast_concat, hvalid, hdd]
         rw [hstep]
         simp only
         have := ih { ad with reactors := some (mid.map (·.val)) } hs' hw'
